@@ -255,6 +255,7 @@ func (f *Frame) inferLoopInvariants(li *loopInfo, b *ssa.BasicBlock, phis []*ssa
 		}
 		pf.callCount = map[string]int{}
 		pf.probe = &probeRec{header: b}
+		pf.unroll = nil
 		pf.cur = head
 		pf.process(f.order, li.body, b)
 		var next []*autoCand
